@@ -82,3 +82,24 @@ package funnel
 //verif:loop 1 invariant m.released <= to && to <= len(m.positions) && m.released < len(m.positions) && forall k in [m.released, to): m.terminal[k] && m.acked[k]
 //verif:loop 1 invariant m.terminal[m.released] && m.acked[m.released]
 //verif:loop 1 decreases len(m.positions) - to
+
+// ---- Batch: structural invariant (lengths of the parallel slices) -----------
+
+//verif:def BLens(b) = len(b.records) == len(b.recordStatuses) && len(b.records) == len(b.positions) && (isnil(b.runs) || len(b.runs) == len(b.records)) && 0 <= b.filterCount && b.filterCount <= len(b.records)
+
+// ---- DestinationTask (C01, C09) ---------------------------------------------
+
+//verif:func (*DestinationTask).validateAcks(t, acks, positions) (err)
+//verif:ensures[bounded] err == nil ==> len(acks) <= len(positions)
+//verif:ensures[matched] err == nil ==> forall k in [0, len(acks)): bytes_equal(arr(positions[k]), off(positions[k]), len(positions[k]), arr(acks[k].Position), off(acks[k].Position), len(acks[k].Position))
+//verif:modifies nothing
+//verif:loop 0 vars j
+//verif:loop 0 invariant j < len(acks) && len(acks) <= len(positions)
+//verif:loop 0 invariant forall k in [0, j+1): bytes_equal(arr(positions[k]), off(positions[k]), len(positions[k]), arr(acks[k].Position), off(acks[k].Position), len(acks[k].Position))
+//verif:loop 0 decreases len(acks) - j
+
+//verif:func (*DestinationTask).Do(t, ctx, batch) (err)
+//verif:requires BLens(batch)
+//verif:ensures[ack-coverage] err == nil ==> ackCount == len(positions)
+//verif:call[write-active] Destination.Write requires arg1 == result_of("(*Batch).ActiveRecords", 0)
+//verif:loop 1 invariant 0 <= ackCount && ackCount <= len(positions) && len(positions) == len(records)
